@@ -32,6 +32,8 @@ pub enum Event {
     Wait([u64; 4]),
     /// report: `Condvar::notify_all`
     NotifyAll,
+    /// report: this thread is unwinding from a panic (followed by `Exit`)
+    Panicked,
     /// report: this thread finished (normally or by unwinding)
     Exit,
     /// blocking: `JoinHandle::join` on the thread with the given id
@@ -194,6 +196,11 @@ impl<T> JoinHandle<T> {
 struct ExitGuard;
 impl Drop for ExitGuard {
     fn drop(&mut self) {
+        if std::thread::panicking() {
+            if let Some((ctl, tid)) = ctx() {
+                ctl.report(tid, Event::Panicked);
+            }
+        }
         leave();
     }
 }
